@@ -58,7 +58,9 @@ type vfC12Params struct {
 
 	GapEvery   int   `json:"pn_gap_every"` // mean packets between skipped packet numbers (0 = never)
 	RevEveryUs int64 `json:"reverse_traffic_us"`
-	App        string `json:"app"` // bulk | bursts | mixed
+	App        string `json:"app"` // bulk | bursts | mixed | script
+	Script     []vfC12AppPhase `json:"app_script,omitempty"` // App=="script": phases in order, then bulk
+	WinUs      int64  `json:"measure_window_us,omitempty"` // script runs: delivered bytes are measured over this window after the last phase starts
 
 	QuicStart  int64 `json:"quic_start_size"`
 	MaxMTU     int64 `json:"max_size"`
@@ -69,6 +71,13 @@ type vfC12Params struct {
 	DurMs     int64 `json:"duration_ms"`
 	PktBudget int   `json:"packet_budget"`
 	Progress  bool  `json:"progress_run,omitempty"`
+}
+
+// vfC12AppPhase: the application offers data at RatePermille/1000 of the link capacity for DurUs
+// (-1 = bulk / unlimited, 0 = silent).
+type vfC12AppPhase struct {
+	DurUs       int64 `json:"dur_us"`
+	RatePermille int  `json:"rate_permille"`
 }
 
 type vfC12Pkt struct {
@@ -210,6 +219,10 @@ type vfC12Sim struct {
 	sameInstant   int
 
 	// application
+	phase              int
+	phaseEnd, lastAppT int64
+	winStart, winEnd   int64
+	deliveredWin       int64
 	unlimited bool
 	avail     int64
 	appNext   int64
@@ -402,6 +415,17 @@ func vfC12NewSim(p vfC12Params, seed int64, onViol func(key, detail string, tail
 	switch p.App {
 	case "bulk":
 		s.unlimited = true
+	case "script":
+		s.phase, s.phaseEnd, s.lastAppT = -1, s.now, s.now
+		s.appNext = s.now
+		var total int64
+		for i, ph := range p.Script {
+			if i == len(p.Script)-1 {
+				s.winStart = s.t0 + total*1000
+				s.winEnd = s.winStart + p.WinUs*1000
+			}
+			total += ph.DurUs
+		}
 	default:
 		s.appNext = s.now
 	}
@@ -527,6 +551,9 @@ func (s *vfC12Sim) rcvPacket(e vfC12Ev) {
 		return
 	}
 	s.delivered += e.size
+	if s.winEnd != 0 && e.t >= s.winStart && e.t < s.winEnd {
+		s.deliveredWin += e.size
+	}
 	if e.t-s.t0 >= (s.endT-s.t0)/2 {
 		s.deliveredLate += e.size
 	}
@@ -947,6 +974,35 @@ func (s *vfC12Sim) triggerSending() {
 func (s *vfC12Sim) appTick() {
 	r := s.rnd
 	switch s.p.App {
+	case "script":
+		for s.phase < len(s.p.Script) && s.now >= s.phaseEnd {
+			s.phase++
+			if s.phase < len(s.p.Script) {
+				s.phaseEnd += s.p.Script[s.phase].DurUs * 1000
+			}
+			s.lastAppT = s.now
+			if s.phase >= len(s.p.Script) || s.p.Script[s.phase].RatePermille != -1 {
+				s.avail = 0 // what bulk had "available" does not carry over
+			}
+		}
+		if s.phase >= len(s.p.Script) {
+			s.unlimited, s.appNext = true, 0 // bulk until the end
+			return
+		}
+		ph := s.p.Script[s.phase]
+		switch {
+		case ph.RatePermille < 0:
+			s.unlimited, s.appNext = true, s.phaseEnd
+		case ph.RatePermille == 0:
+			s.unlimited, s.appNext = false, s.phaseEnd
+		default:
+			s.unlimited = false
+			rate := s.p.CapBps * int64(ph.RatePermille) / 1000
+			s.avail += rate * (s.now - s.lastAppT) / 1e9
+			s.lastAppT = s.now
+			tick := min(max(1400*1e9/max(rate, 1), 500_000), 50_000_000) // about one packet's worth
+			s.appNext = min(s.now+tick, s.phaseEnd)
+		}
 	case "bursts":
 		s.avail += int64(vfC12LogUniform(r, 500, 300000))
 		s.appNext = s.now + int64(vfC12LogUniform(r, 2e6, 600e6))
